@@ -7,16 +7,16 @@ package main
 // reached by the query" can be enumerated.
 
 import (
-	"io"
-	"sync/atomic"
 	"context"
 	"errors"
 	"fmt"
+	"io"
 	"math/rand"
 	"runtime"
 	"sort"
 	"strings"
 	"sync"
+	"sync/atomic"
 	"time"
 
 	"github.com/prometheus/prometheus/model/labels"
@@ -156,10 +156,10 @@ func waitGoroutines(base int, d time.Duration) (int, string) {
 }
 
 type execOutcome struct {
-	res      Canon
-	returned bool
-	elapsed  time.Duration
-	created  bool
+	res       Canon
+	returned  bool
+	elapsed   time.Duration
+	created   bool
 	createErr error
 }
 
